@@ -154,7 +154,8 @@ def flow_case():
         quick_shards=13, thorough_shards=16, shrink=False,
         rule='random graphs x value-update programs under nnx.cond (both '
         'predicates), nnx.switch (index 0-2), nnx.while_loop / nnx.fori_loop '
-        '(trip count 0-3) and cached_partial(jit): result and final state of '
+        '(trip count 0-3, the carry optionally led by a bare counter Variable) '
+        'and cached_partial(jit): result and final state of '
         'the caller\'s objects equal the Python if / index / unrolled loop on '
         'a twin graph; non-trivial = >=1 Variable update and (trip count>=2 or '
         'arguments alias or branch index > 0)')
@@ -189,28 +190,43 @@ def control_flow(case, ctx):
     for _ in range(n):
       acc = acc + M.run_program(progs[0], argsA, x)
     yA = acc
+    # optionally a bare Variable (a step counter) is the first graph leaf of
+    # the carry, ahead of the modules
+    lead = (nnx.Param(jnp.zeros((), jnp.float32)),) if xv % 2 == 0 else ()
     def cond_fun(s):
-      return s[1] < n
+      return s[-2] < n
     def body_fun(s):
-      a, i, ac = s
+      *c, a, i, ac = s
+      for v in c:
+        v.value = v.value + 1.0
       ac = ac + M.run_program(progs[0], a, x)
-      return a, i + 1, ac
+      return (*c, a, i + 1, ac)
     with sut('nnx.while_loop'):
-      _, _, yB = nnx.while_loop(cond_fun, body_fun,
-                                (argsB, jnp.asarray(0), jnp.zeros(
-                                    (), jnp.float32)))
+      *_, yB = nnx.while_loop(cond_fun, body_fun,
+                              (*lead, argsB, jnp.asarray(0), jnp.zeros(
+                                  (), jnp.float32)))
+    for v in lead:
+      require(float(v.value) == float(n), lambda: 'while_loop: the Variable '
+              f'leading the carry counts {float(v.value)} steps, not {n}')
   elif kind == 'fori_loop':
     n = k
     acc = jnp.zeros((), jnp.float32)
     for i in range(n):
       acc = acc + M.run_program(progs[0], argsA, x + i)
     yA = acc
+    lead = (nnx.Param(jnp.zeros((), jnp.float32)),) if xv % 2 == 0 else ()
     def body(i, s):
-      a, ac = s
+      *c, a, ac = s
+      for v in c:
+        v.value = v.value + 1.0
       ac = ac + M.run_program(progs[0], a, x + i)
-      return a, ac
+      return (*c, a, ac)
     with sut('nnx.fori_loop'):
-      _, yB = nnx.fori_loop(0, n, body, (argsB, jnp.zeros((), jnp.float32)))
+      *_, yB = nnx.fori_loop(0, n, body,
+                             (*lead, argsB, jnp.zeros((), jnp.float32)))
+    for v in lead:
+      require(float(v.value) == float(n), lambda: 'fori_loop: the Variable '
+              f'leading the carry counts {float(v.value)} steps, not {n}')
   else:
     if len(set(id(a) for a in argsA)) < len(argsA) and not getattr(
         ctx, 'probe_known', False):
@@ -252,7 +268,8 @@ def control_flow(case, ctx):
   has_set = any(s[0] == 'set' for p in progs for s in p)
   alias = len(arg_idx) == 2 and (arg_idx[0] % len(nodesA)) == (
       arg_idx[1] % len(nodesA))
-  ctx.note(labels=[kind, f'k{k}'],
+  ctx.note(labels=[kind, f'k{k}'] + (['variable-leads-carry'] if kind in (
+      'while_loop', 'fori_loop') and xv % 2 == 0 else []),
            nontrivial=has_set and (k >= 2 or alias or (
                kind in ('cond', 'switch') and k >= 1)))
 
